@@ -8,7 +8,7 @@ From Coq Require Import List ZArith Bool.
 From V Require Import Model.RingSeq Model.SyncRingSeq Run.C10 Proofs.RingPure Proofs.RingSeq
   Proofs.SyncRingSeq Proofs.SyncRingCap Proofs.SyncRingRun Proofs.C10Entry
   Lib.GoSem Gen.RingCode Run.C10Code Proofs.RingCode
-  Lib.GoSemRec Gen.SyncRingCode Proofs.SyncRingCode.
+  Lib.GoSemRec Gen.SyncRingCode Run.C10SyncCode Proofs.SyncRingCode Proofs.SyncRingCodeRun.
 Import ListNotations.
 Local Open Scope Z_scope.
 
@@ -172,3 +172,10 @@ Proof.
         (conj code_SyncPushWait code_SyncPopWait)))))))))))).
 Qed.
 Print Assumptions c10_sync_code_is_model.
+
+(* the SyncRing cases of the correspondence run (kinds 1 and 2), executed through the generated functions
+   (Run/C10SyncCode.v: NewSync, Push, Pop, Len, IsEmpty, IsFull, Cap, Init, PushWait / PopWait; the counter injection, the
+   Dump and the remainder of the 1ns waits are the model's), give the output of `entry` on every case *)
+Theorem c10_entry_runs_generated_sync_code : forall sub args, entry_sync_code sub args = entry sub args.
+Proof. exact entry_sync_code_is_entry. Qed.
+Print Assumptions c10_entry_runs_generated_sync_code.
